@@ -196,7 +196,7 @@ def rdac_one(vc, step, kind, other_step):
     post = h.step.get(me[0])
     vc.prove("another_peers_step_never_changes", h.step[other[0]] == other_step)
     if kind == "reset" and pre != 14:
-        vc.prove("one_byte_reset_restarts_the_peer", post == 1 and len(tr.sent) == 1 and tr.sent[0][0] == RDAC.STEP0_REQUEST and tr.sent[0][1] == me)
+        vc.prove("one_byte_reset_restarts_the_peer", post == 1 and len(tr.sent) == 1 and tr.sent[0][0] == bytes.fromhex("7e0400fe20100000000c60e1") and tr.sent[0][1] == me)
     elif kind == "reset":
         vc.prove("completed_peer_stays_completed", post == 14)
     elif kind == "expected" and pre in EXPECTED:
